@@ -445,7 +445,11 @@ def c05(ctx, tr):
                 res['violations'].append(
                     ('feasible-set-admits-invalid', 'stab',
                      {'assignment': repr(M)}))
-        if missing:
+        only_size = all(n in ('maxsize', 'minsize') for n, _ in ctx.crit)
+        res['probes']['criteria-beyond-size'] = int(not only_size)
+        if missing and only_size:
+            # with other first criteria an auxiliary bound may legitimately
+            # cut non-optimal matchings: only soundness is checked there
             res['violations'].append(
                 ('feasible-set-excludes-stable', 'stab',
                  {'assignment': missing[0], 'n_missing': len(missing),
